@@ -38,7 +38,7 @@ func (c03) CaseBudget(string) time.Duration { return 900 * time.Second }
 func (c03) Cases(tier string, seed uint64) []core.Case {
 	n := 16
 	if tier == "thorough" {
-		n = 240
+		n = 160
 	}
 	r := core.NewRng(core.Mix(seed, 0xC03))
 	var out []core.Case
@@ -48,7 +48,7 @@ func (c03) Cases(tier string, seed uint64) []core.Case {
 			DataFileSize: []int64{4 << 10, 40 << 10, 64 << 10}[r.Intn(3)], Sync: sm.S, BytesPerSync: sm.B}
 		nops := r.Range(30, 70)
 		if tier == "thorough" {
-			nops = r.Range(30, 120)
+			nops = r.Range(30, 90)
 		}
 		out = append(out, core.Case{Index: i, ID: fmt.Sprintf("c03-%04d", i), Seed: r.U64(), Data: c03Case{Cfg: cfg, NOps: nops}})
 	}
@@ -61,7 +61,9 @@ func newCrashRun(w *core.Worker, res *core.Result, cfg core.Config, r *core.Rng,
 	cr := &crashRun{w: w, res: res, io: io, root: root, cfg: cfg, r: r.Fork(), tier: w.Tier, prop: prop,
 		powerLoss: true, partial: true, maxCuts: 10, maxPartials: 8, ever: map[string]bool{}}
 	if w.Tier == "thorough" {
-		cr.maxCuts, cr.maxPartials = 28, 20
+		// thorough spends its budget on ten times as many workloads rather than on denser
+		// sampling per event (measured: a workload costs ~100 s of one worker at 10/8)
+		cr.maxCuts, cr.maxPartials = 12, 10
 	}
 	io.Track = filepath.Join(root, "db")
 	io.OnEvent = cr.onEvent
